@@ -157,3 +157,18 @@ def block_descs(tier):
 def block_blocks(tier, chunk=6):
     n = len(block_descs(tier))
     return [("blocked", {"a0": i, "a1": min(n, i + chunk)}) for i in range(0, n, chunk)]
+
+
+def tiny_probes(A):
+    """1-3 element operands against a long one (ratios up to 1000:1: bisecting / galloping fast paths): present and absent values at the
+    first, second, middle, penultimate and last positions."""
+    n = len(A)
+    sa = set(A)
+    picks = sorted({0, 1, n // 2, n - 2, n - 1})
+    out = [[A[i]] for i in picks]
+    absent = [v for v in (A[0] - 1, A[n // 2] + 1, A[-1] - 1, A[-1] + 1, A[-1] + 1000) if v >= 0 and v not in sa]
+    out += [[v] for v in absent]
+    out += [[A[0], A[-1]], [A[n // 2], A[-1]], [A[0], A[n // 2]], [A[1], A[-2]], [A[0], A[n // 2], A[-1]]]
+    if absent:
+        out += [sorted({A[0], absent[-1]}), sorted({absent[0], A[-1]})]
+    return out
